@@ -12,6 +12,7 @@ PID = "C06"
 def run(ctx: fw.Ctx):
     lp.common(ctx, PID)
     lp.trivia_correspondence(ctx)
+    lp.fragment_correspondence(ctx)
     lp.sweep(ctx, PID)
     extra(ctx)
 
